@@ -76,8 +76,7 @@ def r1_lock_discipline(ctx, P):
     ctx.floor(R, "unsafe calls in the pool module (positive control)", nun, 3)
 
 
-def r2_one_owner(ctx, P):
-    R = "C19.R2"
+def r2_one_owner(ctx, P, R="C19.R2"):
     ctx.rule(R, "arenas move: pop -> guard (ManuallyDrop, no Clone) -> take in Drop -> push; guard constructed only in the get family")
     # guard impls
     bad_impls = [im for im in P.facts["impls"] if im["self_ty"].startswith(GUARD_ADT + "<") and
@@ -137,6 +136,12 @@ def r2_one_owner(ctx, P):
                 okp = okp and expr_mentions(v, lambda x: x[0] == "call" and x[1].startswith("core::mem::ManuallyDrop::<T>::take"))
                 recv = b.prov_operand(pt["args"][0], ps)
                 okp = okp and expr_mentions(recv, lambda x: x[0] == "call" and x[1].split("::")[-1] == "lock")
+        if ok:
+            oku, _ = b.must_pass(None, [s.bb], exits=(RET,), cleanup=False, from_edge=0)
+            ctx.inst(R, b.path, oku, "the guard's drop hands its arena back on every path" if oku else
+                     "a path through the guard's drop returns without taking the arena out of the guard (e.g. when the mutex is "
+                     "poisoned): the arena is neither pushed back nor dropped - its chunks are never released", where=b.where(s),
+                     site="drop always returns the arena")
         ctx.inst(R, b.path, ok and okp, "guard drop: take is followed on every returning path by push(taken) under the lock"
                  if ok and okp else "ManuallyDrop::take of the arena outside the guard's Drop, or not followed by push under the lock: "
                  "the arena is lost or owned twice", where=b.where(s), site="take -> push")
